@@ -369,7 +369,7 @@ func RunC05(ctx *vrun.Ctx) error {
 	var runs, big []cfgRun
 	if ctx.Thorough {
 		runs = []cfgRun{
-			{cfg: "kv.cfg", graph: true, timeout: 20 * time.Minute, heapGB: 8},
+			{cfg: "kv.cfg", graph: true, maxPaths: 20000, timeout: 20 * time.Minute, heapGB: 8},
 			{cfg: "blk.cfg", graph: true, timeout: 20 * time.Minute, heapGB: 8},
 			{cfg: "iso.cfg", graph: true, timeout: 20 * time.Minute, heapGB: 8},
 			{cfg: "pow.cfg", graph: true, timeout: 20 * time.Minute, heapGB: 8},
@@ -377,7 +377,7 @@ func RunC05(ctx *vrun.Ctx) error {
 			{cfg: "curmix.cfg", graph: true, timeout: 20 * time.Minute, heapGB: 8},
 			{cfg: "isoblk.cfg", graph: true, timeout: 20 * time.Minute, heapGB: 8},
 			{cfg: "fault2.cfg", graph: true, timeout: 20 * time.Minute, heapGB: 8},
-			{cfg: "blk3.cfg", graph: true, timeout: 20 * time.Minute, heapGB: 8},
+			{cfg: "blk3.cfg", graph: true, maxPaths: 15000, timeout: 20 * time.Minute, heapGB: 8},
 		}
 		// exhaustive TLC only (state graphs too large to dump); behaviours of
 		// these configurations are replayed from simulation below
@@ -429,7 +429,7 @@ func RunC05(ctx *vrun.Ctx) error {
 		}()
 		treapPaths := 1500
 		if ctx.Thorough {
-			treapPaths = 0
+			treapPaths = 40000
 		}
 		if os.Getenv("VERIF_FFLDB_CFGS") == "" || strings.Contains(os.Getenv("VERIF_FFLDB_CFGS"), "treap") {
 			treapCfgs := []string{"treap_iter.cfg", "treap_imm.cfg"}
@@ -527,7 +527,7 @@ func RunC05(ctx *vrun.Ctx) error {
 			for _, sc := range []struct {
 				cfg        string
 				num, depth int
-			}{{"blkbig.cfg", 1000, 90}, {"kvblk.cfg", 1000, 80}, {"kv3.cfg", 1000, 40}, {"iso2.cfg", 1000, 40}, {"cur2.cfg", 2000, 45}, {"curmixr.cfg", 1500, 32}} {
+			}{{"blkbig.cfg", 600, 90}, {"kvblk.cfg", 800, 80}, {"kv3.cfg", 600, 40}, {"iso2.cfg", 800, 40}, {"cur2.cfg", 1500, 45}, {"curmixr.cfg", 1000, 32}} {
 				mu.Lock()
 				stop := firstErr != nil
 				mu.Unlock()
@@ -571,6 +571,6 @@ func RunC05(ctx *vrun.Ctx) error {
 		return fmt.Errorf("vacuity audit: specification steps that never occur in any state graph: %v", never)
 	}
 	ctx.Ev.Coverage.Exhaustive = false
-	ctx.Ev.Coverage.Explanation = "TLC explores each listed configuration of Ffldb.tla exhaustively; the real code is driven along paths that cover the state graph's transitions (all of them in the thorough tier for the graph configurations, a seeded sample in the quick tier) plus simulated behaviours of the larger configurations"
+	ctx.Ev.Coverage.Explanation = "TLC explores each listed configuration of Ffldb.tla exhaustively; the real code is driven along paths that cover the state graphs' transitions (all of them in the thorough tier for the small graph configurations, a seeded sample of at most 15000-40000 paths for kv, blk3 and the treap graphs and of 600-1500 paths per configuration in the quick tier) plus, in the thorough tier, simulated behaviours of the configurations that are only model-checked"
 	return nil
 }
